@@ -176,15 +176,26 @@ func sxgMut(args []string) error {
 			mem("resph split join", func(x *sxg.Exchange) { x.ResponseHeaders["X-A"] = []string{"one,two"} }) // same canonical content: may verify
 			// empty field values change the comma-joined value that is signed
 			mem("resph empty value first", func(x *sxg.Exchange) { x.ResponseHeaders["X-A"] = append([]string{""}, x.ResponseHeaders["X-A"]...) })
-			mem("resph empty value first (single)", func(x *sxg.Exchange) { x.ResponseHeaders["Content-Type"] = []string{"", x.ResponseHeaders.Get("Content-Type")} })
-			mem("resph two empty values first", func(x *sxg.Exchange) { x.ResponseHeaders["Content-Type"] = []string{"", "", x.ResponseHeaders.Get("Content-Type")} })
-			mem("resph empty value last", func(x *sxg.Exchange) { x.ResponseHeaders["X-A"] = append(append([]string{}, x.ResponseHeaders["X-A"]...), "") })
+			mem("resph empty value first (single)", func(x *sxg.Exchange) {
+				x.ResponseHeaders["Content-Type"] = []string{"", x.ResponseHeaders.Get("Content-Type")}
+			})
+			mem("resph two empty values first", func(x *sxg.Exchange) {
+				x.ResponseHeaders["Content-Type"] = []string{"", "", x.ResponseHeaders.Get("Content-Type")}
+			})
+			mem("resph empty value last", func(x *sxg.Exchange) {
+				x.ResponseHeaders["X-A"] = append(append([]string{}, x.ResponseHeaders["X-A"]...), "")
+			})
 			mem("resph empty value middle", func(x *sxg.Exchange) { x.ResponseHeaders["X-A"] = []string{"one", "", "two"} })
 			mem("resph new empty", func(x *sxg.Exchange) { x.ResponseHeaders["X-Empty"] = []string{""} })
-			mem("reqh empty value first", func(x *sxg.Exchange) { x.RequestHeaders["Accept"] = append([]string{""}, x.RequestHeaders["Accept"]...) })
+			mem("reqh empty value first", func(x *sxg.Exchange) {
+				x.RequestHeaders["Accept"] = append([]string{""}, x.RequestHeaders["Accept"]...)
+			})
 			mem("resph new", func(x *sxg.Exchange) { x.ResponseHeaders.Add("X-New", "v") })
 			mem("resph del", func(x *sxg.Exchange) { x.ResponseHeaders.Del("X-A") })
-			mem("resph case", func(x *sxg.Exchange) { x.ResponseHeaders["x-a"] = x.ResponseHeaders["X-A"]; delete(x.ResponseHeaders, "X-A") }) // same canonical content
+			mem("resph case", func(x *sxg.Exchange) {
+				x.ResponseHeaders["x-a"] = x.ResponseHeaders["X-A"]
+				delete(x.ResponseHeaders, "X-A")
+			}) // same canonical content
 			mem("content-type", func(x *sxg.Exchange) { x.ResponseHeaders.Set("Content-Type", "text/plain") })
 			mem("method", func(x *sxg.Exchange) { x.RequestMethod = "HEAD" })
 			mem("reqh", func(x *sxg.Exchange) { x.RequestHeaders.Add("X-Req", "1") })
